@@ -68,6 +68,13 @@ func (m DistributedExecutionOptimizer) Optimize(plan parser.Expr) parser.Expr {
 			return true
 		}
 
+		// A scalar is not partitioned data: evaluating time() or scalar(x) on
+		// every remote engine and coalescing the answers would yield one copy
+		// per engine, and the coalesced node is no longer typed as a scalar.
+		if (*current).Type() == parser.ValueTypeScalar {
+			return true
+		}
+
 		// If the current node is an aggregation, distribute the operation and
 		// stop the traversal.
 		if aggr, ok := (*current).(*parser.AggregateExpr); ok {
